@@ -47,6 +47,7 @@ class Collector(object):
     def __init__(self):
         self.evaluations = 0
         self.hashes = set()
+        self.extra_distinct = 0   # non-trivial cases that are distinct by construction (exhaustive enumerations)
         self.classes = collections.Counter()
         self.samples = []
         self.violations = []      # (part, case(jsonable), rule, detail)
@@ -56,11 +57,16 @@ class Collector(object):
         self.exhaustive = {}
         self.notes = []
 
-    def count(self, case, info, hash_of=None):
+    def count(self, case, info, hash_of=None, distinct=False):
         self.evaluations += 1
         for c in info.get("classes", ()):
             self.classes[c] += 1
         if info.get("nontrivial"):
+            if distinct:
+                self.extra_distinct += 1
+                if len(self.samples) < self.MAX_SAMPLES:
+                    self.samples.append(codec.brief(info.get("sample", case)))
+                return
             h = codec.case_hash(hash_of if hash_of is not None else case)
             if h not in self.hashes:
                 self.hashes.add(h)
@@ -72,6 +78,7 @@ class Collector(object):
     def merge(self, o):
         self.evaluations += o.evaluations
         self.hashes |= o.hashes
+        self.extra_distinct += o.extra_distinct
         self.classes.update(o.classes)
         for s in o.samples:
             if len(self.samples) < self.MAX_SAMPLES and s not in self.samples:
@@ -194,8 +201,9 @@ def hypothesis_part(part, strategy, case_fn, examples, seed, nshards=None, shrin
     return run_sharded(part, shard_fn, nshards)
 
 
-def enumeration_part(part, items_fn, case_fn, nshards=None, stop_after=3, hash_of=None):
-    """Exhaustive enumeration: items_fn(shard, nshards) yields cases; every one is evaluated."""
+def enumeration_part(part, items_fn, case_fn, nshards=None, stop_after=3, hash_of=None, distinct=False):
+    """Exhaustive enumeration: items_fn(shard, nshards) yields cases; every one is evaluated.
+    distinct=True: the enumerated cases are pairwise distinct by construction (no hashing needed)."""
     nshards = nshards or NSHARDS
 
     def shard_fn(shard):
@@ -203,7 +211,7 @@ def enumeration_part(part, items_fn, case_fn, nshards=None, stop_after=3, hash_o
         buckets = set()
         for case in items_fn(shard, nshards):
             v, info = case_fn(case)
-            col.count(case, info, hash_of(case) if hash_of else None)
+            col.count(case, info, hash_of(case) if hash_of else None, distinct=distinct)
             if v is not None:
                 if v.bucket() in buckets:
                     col.excluded[v.bucket()] += 1
@@ -257,7 +265,7 @@ def finish(check_id, tier, seed, level, col, rule, assumptions, t0, exhaustive=N
     os.makedirs(EVIDENCE_DIR, exist_ok=True)
     cov = {
         "evaluations": col.evaluations,
-        "distinct_nontrivial": len(col.hashes),
+        "distinct_nontrivial": len(col.hashes) + col.extra_distinct,
         "rule": rule,
         "samples": col.samples,
         "classes": dict(sorted(col.classes.items())),
@@ -295,8 +303,8 @@ def finish(check_id, tier, seed, level, col, rule, assumptions, t0, exhaustive=N
         print("  " + detail[:1200].replace("\n", "\n  "))
         code = 1
     print("%s %s seed=%d: %d evaluations, %d distinct non-trivial, %d violation(s), %.1fs"
-          % (check_id, tier, seed, col.evaluations, len(col.hashes), len(col.violations), time.time() - t0))
-    if (len(col.hashes) < 2 or col.evaluations < 1) and code == 0:
-        raise env.HarnessError("%s: generator produced %d non-trivial cases" % (check_id, len(col.hashes)))
+          % (check_id, tier, seed, col.evaluations, len(col.hashes) + col.extra_distinct, len(col.violations), time.time() - t0))
+    if (len(col.hashes) + col.extra_distinct < 2 or col.evaluations < 1) and code == 0:
+        raise env.HarnessError("%s: generator produced %d non-trivial cases" % (check_id, len(col.hashes) + col.extra_distinct))
     sys.stdout.flush()
     return code
